@@ -21,7 +21,7 @@ def fxv(x):
     return int(round(float(x) * FX))
 
 
-def big_continuum(pa, rng, shape, labels, unlabelled=0.0):
+def big_continuum(pa, rng, shape, labels, unlabelled=0.0, crowded=False):
     from pyannote.core import Segment
     n_ann, per = shape
     c = pa.Continuum()
@@ -29,8 +29,8 @@ def big_continuum(pa, rng, shape, labels, unlabelled=0.0):
         name = f"ann_{a}"
         t = 0
         for _ in range(per):
-            t += rng.randint(0, 6)
-            dur = rng.randint(1, 8)
+            t += rng.randint(0, 1 if crowded else 6)
+            dur = rng.randint(3 if crowded else 1, 8)
             c.add(name, Segment(float(t), float(t + dur)), None if rng.random() < unlabelled else rng.choice(labels))
             t += dur - rng.randint(0, 2)
     return c
@@ -84,14 +84,16 @@ def make_dissim(pa, rng, kind, labels, de, alpha, beta, cat_map=None):
 def build(pa, rng, count, rep):
     recs, metas = [], []
     labels = ["Adj", "Noun", "Prep", "Verb"]
-    shapes = [(2, 60), (3, 15), (5, 5), (2, 25), (4, 8)]
+    shapes = [(2, 60), (3, 15), (5, 5), (2, 25), (4, 8), (5, 5), (4, 6)]
+    failures = 0
     kinds = ["pos", "comb_abs", "comb_ord", "comb_pre", "comb_abs_explicit", "comb_ord_natural", "comb_abs_mixed"]
     tks = ["delta_empty", "rename", "permute", "shift", "scale", "catrename_order", "catrename_any", "delta_empty"]
     it = 0
     while len(recs) < count:
         shape = rng.choice(shapes)
         kind = kinds[it % len(kinds)]          # systematic: every (dissimilarity, transformation) combination
-        c = big_continuum(pa, rng, shape, labels, unlabelled=0.3 if kind == "comb_abs_mixed" else 0.0)
+        crowded = shape[0] >= 3 and it % 2 == 0        # several annotators, overlapping heavily: branch-and-bound really needed
+        c = big_continuum(pa, rng, shape, labels, unlabelled=0.3 if kind == "comb_abs_mixed" else 0.0, crowded=crowded)
         if it % 6 == 5 and kind != "comb_abs_mixed":
             # crowded: long units over the same stretch of time, thousands of candidates with small, close costs
             from pyannote.core import Segment
@@ -110,7 +112,11 @@ def build(pa, rng, count, rep):
         de = rng.choice([1.0, 0.5, 2.0])
         alpha, beta = rng.choice([1, 3, 0.5]), rng.choice([1, 2, 0.5])
         d = make_dissim(pa, rng, kind, labels, de, alpha, beta)
-        base = c.get_best_alignment(d).disorder
+        try:
+            base = c.get_best_alignment(d).disorder
+        except Exception as ex:
+            rep.violation("invariance.raises", {"exception": repr(ex), "shape": shape, "dissim": kind, "delta_empty": de})
+            continue
         tk = tks[(it // len(kinds)) % len(tks)]
         if mixed:        # unlabelled units next to labelled ones: mostly under arbitrary renamings (which category sorts first changes)
             tk = rng.choice(["catrename_any", "catrename_any", "catrename_any", "delta_empty", "rename"])
@@ -118,6 +124,26 @@ def build(pa, rng, count, rep):
         meta = {"shape": shape, "dissim": kind, "delta_empty": de, "alpha": alpha, "beta": beta, "transform": tk, "mixed_unlabelled": mixed}
         rec = {"kind": tk, "c": [1, 1], "base": fxv(base), "other": 0, "hasgamma": 0, "gbase": 0, "gother": 0}
         anns = list(c.annotators)
+        try:
+          other = _transformed(pa, rng, c, d, kind, labels, de, alpha, beta, tk, rec, meta, shape, anns, mixed)
+        except Exception as ex:
+            rep.violation("invariance.raises", {"exception": repr(ex), "meta": meta})
+            failures += 1
+            if failures > count:
+                break
+            continue
+        if other is None:
+            continue
+        rec["other"] = fxv(other)
+        recs.append(rec)
+        metas.append(meta)
+        rep.case(key=json.dumps([meta, rec["base"]]))
+    return recs, metas
+
+
+def _transformed(pa, rng, c, d, kind, labels, de, alpha, beta, tk, rec, meta, shape, anns, mixed):
+    """Disorder of the transformed continuum (rec / meta are updated in place); None = combination skipped."""
+    if True:
         if tk == "rename":
             m = {a: f"zz_{i}_{a}" for i, a in enumerate(anns)}
             other = transform(pa, c, ann_map=m).get_best_alignment(d).disorder
@@ -139,15 +165,9 @@ def build(pa, rng, count, rep):
             other = transform(pa, c, cat_map=cm).get_best_alignment(d2).disorder
         elif tk == "catrename_any":
             if kind not in ("pos", "comb_abs", "comb_abs_explicit"):
-                tk = "rename"
-                rec["kind"] = meta["transform"] = tk
+                rec["kind"] = meta["transform"] = "rename"
                 m = {a: f"zz_{i}_{a}" for i, a in enumerate(anns)}
-                other = transform(pa, c, ann_map=m).get_best_alignment(d).disorder
-                rec["other"] = fxv(other)
-                recs.append(rec)
-                metas.append(meta)
-                rep.case(key=json.dumps([meta, rec["base"]]))
-                continue
+                return transform(pa, c, ann_map=m).get_best_alignment(d).disorder
             perm = list(labels)
             rng.shuffle(perm)
             cm = {x: f"q_{perm[i]}" for i, x in enumerate(sorted(labels))}           # arbitrary bijection
@@ -168,11 +188,7 @@ def build(pa, rng, count, rep):
                 np.random.seed(s)
                 g2 = c.compute_gamma(d2, n_samples=4, sampler=mk())
                 rec.update(hasgamma=1, gbase=fxv(g1.gamma), gother=fxv(g2.gamma))
-        rec["other"] = fxv(other)
-        recs.append(rec)
-        metas.append(meta)
-        rep.case(key=json.dumps([meta, rec["base"]]))
-    return recs, metas
+        return other
 
 
 def judge(recs):
